@@ -110,10 +110,12 @@ func (s *BaseCompactionStrategy) LoadSSTables() error {
 		s.levels[level] = append(s.levels[level], info)
 	}
 
-	// Sort files within each level by sequence number
+	// Sort files within each level from the oldest to the newest. The creation
+	// time decides: sequence numbers restart at every open and at every
+	// compaction, so they do not order files.
 	for level, files := range s.levels {
 		sort.Slice(files, func(i, j int) bool {
-			return files[i].Sequence < files[j].Sequence
+			return files[i].olderThan(files[j])
 		})
 		s.levels[level] = files
 	}
